@@ -1,4 +1,5 @@
 import PlinioVerif.Model.PIT.Net
+import PlinioVerif.Model.PIT.Parse   -- request syntax of the drivers (built with the library)
 import PlinioVerif.Lemmas.PIT.Compress
 /-!
 # Network-level export equivalence over SSA programs (C01, C09)
@@ -50,6 +51,8 @@ def pitStep (σ : Sem V) (ms : List (List Bool)) (inp : ℕ → List V) (vp : Li
   | .tcat ss => List.zipWith (σ.g2 n) (gv vp (ss.headD 0)) (gv vp (ss.getD 1 0))
   | .cat ss => (ss.map (gv vp)).flatten
   | .flat s m => ((gv vp s).map fun v => (List.range m).map fun p => σ.sp n p v).flatten
+  | .reuse s o _ _ _ =>   -- the layer of node `o` (its weights, bias, BatchNorm) applied to `s`
+      maskedLayer (fun co => σ.post o co (σ.b o co + mix (σ.L o co) 0 (gv vp s))) 0 (gm ms n)
   | .output s => gv vp s
 
 /-- value of node `x.2` of the exported network -/
@@ -76,6 +79,9 @@ def expStep (σ : Sem V) (ms : List (List Bool)) (inp : ℕ → List V) (ve : Li
   | .tcat ss => List.zipWith (σ.g2 n) (gv ve (ss.headD 0)) (gv ve (ss.getD 1 0))
   | .cat ss => (ss.map (gv ve)).flatten
   | .flat s m => ((gv ve s).map fun v => (List.range m).map fun p => σ.sp n p v).flatten
+  | .reuse s o ls _ _ =>  -- the *one* exported layer of node `o`: sliced by the masks of `o` and of its input `ls`
+      (compress (gm ms o) (idxFrom 0 (gm ms o).length)).map fun co =>
+        σ.post o co (σ.b o co + mixIdx (σ.L o co) (compress (gm ms ls) (idxFrom 0 (gm ms ls).length)) (gv ve s))
   | .output s => gv ve s
 
 def allTrue (m : List Bool) : Prop := m = List.replicate m.length true
@@ -97,6 +103,7 @@ def Coherent (σ : Sem V) (ms : List (List Bool)) (inp : ℕ → List V) (x : Op
       gm ms (ss.headD 0) = gm ms (ss.getD 1 0) ∧ σ.g2 n 0 0 = 0
   | .cat ss => (∀ s ∈ ss, s < n) ∧ gm ms n = (ss.map (gm ms)).flatten
   | .flat s m => s < n ∧ gm ms n = expand (gm ms s) m ∧ ∀ p, σ.sp n p 0 = 0
+  | .reuse s o ls _ _ => s < n ∧ gm ms n = gm ms o ∧ gm ms s = gm ms ls ∧ ∀ co ci, σ.L o co ci 0 = 0
   | .output s => s < n ∧ gm ms n = gm ms s
 
 /-- invariant tying the two runs together on the first `k` nodes -/
@@ -288,6 +295,17 @@ theorem step_inv (σ : Sem V) (ms : List (List Bool)) (inp : ℕ → List V) (vp
     · simp only [pitStep]; rw [hm]; unfold expand; exact deadZero_flatExpand (σ.sp k) hsp m _ _ hdz
     · simp only [expStep, pitStep]; rw [hm, hve]; unfold expand
       exact (compress_flatExpand (σ.sp k) m _ _).symm
+  | reuse s o ls c a =>
+    obtain ⟨hs, hmo, hms, hL⟩ := hok
+    obtain ⟨hlen, hdz, hve⟩ := hall s hs
+    apply key
+    · simp only [pitStep]; rw [length_maskedLayer]
+    · simp only [pitStep]; exact deadZero_maskedLayer _ _ 0
+    · simp only [expStep, pitStep]
+      rw [compress_maskedLayer, hmo]
+      apply List.map_congr_left
+      intro co _
+      rw [hve, mix_compress (σ.L o co) (hL co) _ _ 0 hlen hdz, ← hms, hlen]
   | output s =>
     obtain ⟨hs, hm⟩ := hok
     obtain ⟨hlen, hdz, hve⟩ := hall s hs
